@@ -34,6 +34,8 @@ def main():
     try:
         if ctx.ensure_theories():
             mod.run(ctx)
+            if tier == "thorough":
+                ctx.coqchk()
     except Exception:
         ctx.broken("check-crashed", traceback.format_exc()[-3000:])
     return core.finish(ctx)
